@@ -11,6 +11,45 @@ with open(_os.path.join(_os.path.dirname(_os.path.abspath(__file__)), "theorems_
     _T = _json.load(_fh)
 
 REGISTRY = {
+    "C09": {
+        "level": "proof",
+        "modules": ["CoCoVerif.Props.C09"],
+        "theorems": _T["C09"],
+        "rule": "cases = sniffing of tool-written cassettes (small and >= 161,280 bytes with different contents at the disk directory offsets, incl. a "
+                "well-formed tape with a long zero gap), tool-written disks, raw binaries, arbitrary bytes, empty files, damaged variants (vf.sniff); "
+                "histories of add / save / re-open on a real temp file through VirtualFile for both container kinds with boundary lengths (vf.hist), "
+                "after which the implementation's reader must list every stored file, unchanged, in order",
+        "assumptions": ["host file system = path -> bytes with atomic writes (abstract in the model, real temp files in the harness)"],
+    },
+    "C10": {
+        "level": "proof",
+        "modules": ["CoCoVerif.Props.C10"],
+        "theorems": _T["C10"],
+        "rule": "cases = the full matrix {--to_bin, --to_cas, --to_dsk} x {append, no append} x pre-existing target {absent, empty, cassette, disk, raw binary, "
+                "arbitrary bytes, cassette >= 161,280 bytes (text content / zero gap over the directory offsets)} through assembler.main on real temp "
+                "files (every 9th cell as a real subprocess), combined switches, plus file_util conversions onto pre-existing targets; before/after "
+                "bytes of every target are classified by the tape and Disk BASIC specifications and compared with the model's file system",
+        "assumptions": ["open(path, 'wb')/write are not atomic: a crash or ENOSPC between truncate and write loses the old content; os.path.exists races; "
+                        "neither is expressible in the model (named remainder, not claimed)"],
+    },
+    "C11": {
+        "level": "proof",
+        "modules": ["CoCoVerif.Props.C11"],
+        "theorems": _T["C11"],
+        "rule": "cases = the assembler command line matrix of C10 restricted to what gets written: raw binary = image byte for byte; cassette / disk image "
+                "parsed by the reference readers: last file = (image, load = exec = origin, name = NAM or --name padded/truncated to 8, case-insensitive, "
+                "machine language type); earlier files of an appended-to image still there in order; no name => no cassette/disk file",
+        "assumptions": ["entry address = origin (the tool never uses the END operand: not part of what is claimed)"],
+    },
+    "C16": {
+        "level": "proof",
+        "modules": ["CoCoVerif.Props.C16"],
+        "theorems": _T["C16"],
+        "rule": "cases = file_util.main on tool-written cassette and disk images (1..4 files, names letters/digits in either case, boundary lengths) with "
+                "--to_cas / --to_dsk / --to_bin, every kind of --files selection in upper/lower/mixed case incl. unknown names, and chains "
+                "cas->dsk->cas / dsk->cas->dsk; the target is parsed by the reference readers and compared with the selected source files",
+        "assumptions": ["files other than machine language carry no addresses; names letters/digits (no blanks)"],
+    },
     "C01": {
         "level": "proof",
         "modules": ["CoCoVerif.Props.C01"],
@@ -111,6 +150,41 @@ NOT_BUILT = "check not built yet at this commit (work in progress; see DESIGN.md
 NOT_APPLICABLE = {("C%02d" % i): NOT_BUILT for i in range(1, 20)}
 
 MANIFEST_TEXT = {
+    "C09": {
+        "text": "Lean: sniff_written_disk (every image the tool writes as a disk is recognised as a disk, whatever its content), sniff_written_cassette (a written "
+                "cassette shorter than 161,280 bytes is recognised as a cassette), hist_cassette / hist_disk (for EVERY history of add-batches with save and "
+                "re-open in between, the final image is exactly the image of all files in order, so every stored file lists unchanged and new ones come last; "
+                "induction over the history using C06/C07/C08), C09_Statement_false via E1. Exclusions: E1, G1 (K_C09_bigCassette), disk names with blanks.",
+        "design_ref": "DESIGN.md section 5 C09, section 6 G",
+        "note": "known findings E1, G1; trusted: Lean kernel, Spec files, correspondence (real temp files vs abstract FS)",
+        "technique": "Lean 4 proof (refinement of save/re-open histories to an append-only file list, sniffing lemmas) + differential histories on real files + reader oracle",
+    },
+    "C10": {
+        "text": "Lean: C10_partial (a successful open/add/save changes only the target path; an existing target is rewritten only when append was requested AND "
+                "the tool's sniffer took its old content for an image of the requested kind, and the new content is exactly the image of old files ++ new "
+                "files), C10_no_append (without append an existing target is never written), C10_outside_exclusion (the statement with the FORMAT "
+                "specifications as criterion, outside K_C10_sniff = sniffer accepts what the specification rejects: finding G1), asmMain_failure (no "
+                "successful assembly => exit 1 and the file system unchanged). PARTIAL by nature: non-atomic host writes and exists-races are outside any model.",
+        "design_ref": "DESIGN.md section 5 C10",
+        "note": "known finding G1; named remainder: OS write atomicity, os.path.exists races",
+        "technique": "Lean 4 proof over an abstract host file system (frame + guard theorem for open/add/save) + differential runs of both command lines on real files + format-spec classification oracle",
+    },
+    "C11": {
+        "text": "Lean: C11_bin (the raw binary written to a fresh path is the assembled image), C11_cas / C11_dsk (the file written is Cas.write [f] / "
+                "Dsk.write [f] for f = (name, image, load = exec = origin); with C14/C06 resp. C08/C07 it is well formed and lists exactly that file), "
+                "C11_name_source / C11_name_arg, C11_load_org / C11_load_none (the origin's hex path gives the right 16-bit address), C11_noname, C11_all, C11_partial.",
+        "design_ref": "DESIGN.md section 5 C11",
+        "note": "hypotheses of C11_partial: image bytes < 256 and origin < 65536 (originAddr_lt_cases discharges the ORG spellings); E1 for an empty program",
+        "technique": "Lean 4 proof (glue lemmas composing the assembler model with C06/C07/C08/C14) + differential command-line runs + reference-reader oracle",
+    },
+    "C16": {
+        "text": "Lean: C16_to_cas / C16_to_dsk / C16_to_bin (the converted image is the writer's image of exactly the selected files of the source in source order; "
+                "--to_bin refuses more than one file), C16_selected_* (selection is case-insensitive), C16_chain_cas_dsk_cas / C16_chain_dsk_cas_dsk "
+                "(converting back yields the original file set up to the normalisation of each container), C16_partial.",
+        "design_ref": "DESIGN.md section 5 C16",
+        "note": "exclusions inherited: E1, G1; trusted as for C06/C07",
+        "technique": "Lean 4 proof (filter lemma + container round-trip theorems) + differential file_util runs + reference-reader oracle",
+    },
     "C01": {
         "text": "Lean: (i) table_matches_datasheet / map_covered — the instruction table REGENERATED from /repo on every run agrees cell by cell (operation, "
                 "addressing mode, size) with the datasheet opcode map, both directions, by kernel evaluation over all 150 rows; (ii) C01_partial — for every "
